@@ -25,7 +25,7 @@ func init() {
 			"on error / unknown-dedicated results.",
 		NotCovered: "parsing of identifiers from TLS server names, URL paths, userinfo and EDNS options (string work); " +
 			"the profile database's own lookups (C14); the password-hash comparison itself.",
-		Rules: map[string]string{"C03-R19": "every Unpack on the receive paths is bounded by the bytes read for this message (shared with C06-R1)", "C03-R20": "backendpb.dohPasswordToInternal: AllowAuthenticator only for an absent hash; a present hash, even an empty one, becomes a bcrypt authenticator", "C03-R18": "Default.Refresh stores the backend's sync time with the file cache; a restart then fetches every deletion and detachment made since (table shared with C14-R8)", "C03-R17": "every backend update that converts reaches the profile database, so deletions and detached devices take effect (shared with C14-R16)", "C03-R16": "CreateAutoDevice asks the storage only for an existing profile with automatic devices enabled", "C03-RC": "class rules (error chains, shadowed results, character classes, crossed arguments, pool constructors, array pools, loop completeness, loop-carried buffers, replacing setters, complete clones, Grow arithmetic, pooled-buffer escape, sorted searches, fresh decode targets, per-iteration objects, whole-message copies, codec guards) over the packages this property rests on", "C03-R15": "matchDomain: lower-cased name, the library's immediate-subdomain test against every device domain, first match wins", "C03-R14": "auth settings are dropped by the file-cache codec only when absent or disabled; setProfiles stores deleted profiles over the live record (shared rules)", "C03-R13": "per-element objects built in conversion loops (server groups, devices) take no slice accumulated over earlier elements",
+		Rules: map[string]string{"C03-R21": "an identifier taken from a request (EDNS option, DoH path, TLS server name) reaches its validator whole: it is not first copied into a fixed-size buffer, which would cut a longer value down to one that passes the length check and names another device", "C03-R19": "every Unpack on the receive paths is bounded by the bytes read for this message (shared with C06-R1)", "C03-R20": "backendpb.dohPasswordToInternal: AllowAuthenticator only for an absent hash; a present hash, even an empty one, becomes a bcrypt authenticator", "C03-R18": "Default.Refresh stores the backend's sync time with the file cache; a restart then fetches every deletion and detachment made since (table shared with C14-R8)", "C03-R17": "every backend update that converts reaches the profile database, so deletions and detached devices take effect (shared with C14-R16)", "C03-R16": "CreateAutoDevice asks the storage only for an existing profile with automatic devices enabled", "C03-RC": "class rules (error chains, shadowed results, character classes, crossed arguments, pool constructors, array pools, loop completeness, loop-carried buffers, replacing setters, complete clones, Grow arithmetic, pooled-buffer escape, sorted searches, fresh decode targets, per-iteration objects, whole-message copies, codec guards) over the packages this property rests on", "C03-R15": "matchDomain: lower-cased name, the library's immediate-subdomain test against every device domain, first match wins", "C03-R14": "auth settings are dropped by the file-cache codec only when absent or disabled; setProfiles stores deleted profiles over the live record (shared rules)", "C03-R13": "per-element objects built in conversion loops (server groups, devices) take no slice accumulated over earlier elements",
 			"C03-R1":  "decision tree of Find equals the reference (channel precedence, deleted profile, authentication table)",
 			"C03-R2":  "supportsDeviceID table",
 			"C03-R3":  "who may construct *agd.DeviceResultOK",
@@ -46,6 +46,10 @@ func init() {
 const dfPkg = "dnssvc/internal/devicefinder."
 
 func runC03(c *an.Ctx) {
+	// ---- R21: identifiers are validated whole
+	if n := c03ValidatedWhole(c, "C03-R21"); n < 3 {
+		c.Und("C03-R21", "identifier validators of the device finder", token.NoPos, "only %d validator calls found in package devicefinder", n)
+	}
 	c03CreateAutoDevice(c)
 	classSweep(c, "C03")
 	// ---- R19: a query is decoded from the bytes of its own datagram only, so no identifier (EDNS CPE-ID) of an
@@ -1107,4 +1111,52 @@ func c03AllowOnlyAbsent(c *an.Ctx, rule string) {
 	}
 	c.Check(n > 0 && bad == "", rule, key, fn.Pos(), fmt.Sprintf("%d returns of AllowAuthenticator, none inside a case that matched a hash type", n),
 		bad+": a device whose hash is present (but, say, empty) is recognised with any password")
+}
+
+// c03ValidatedWhole: agd.NewDeviceID, NewHumanID and NewProfileID reject values
+// that are too long.  A value that was cut to the maximum length on its way
+// to the validator passes it, and a request that names "dev12345-someone-else"
+// is attributed to device "dev12345".  The argument of every validator call in
+// the device finder is walked back: it must not pass through a slice of a local
+// fixed-size array (the target of a truncating copy).
+func c03ValidatedWhole(c *an.Ctx, rule string) (sites int) {
+	for _, fn := range c.AllFns {
+		k := an.FnKey(fn)
+		if fn.Blocks == nil || c.IsTestFile(fn.Pos()) || !strings.HasPrefix(k, "dnssvc/internal/devicefinder.") {
+			continue
+		}
+		perCallee := map[string]int{}
+		for _, call := range an.Calls(fn) {
+			name := an.CalleeName(call)
+			if !strings.Contains(name, "internal/agd.New") || !strings.HasSuffix(name, "ID") || len(call.Common().Args) != 1 {
+				continue
+			}
+			sites++
+			c.Analysed(k)
+			perCallee[name]++
+			bad := ""
+			w := &an.Walker{P: c.Prog, NoFieldJoin: true,
+				Visit: func(v ssa.Value) bool {
+					if sl, ok := v.(*ssa.Slice); ok {
+						if al, ok := sl.X.(*ssa.Alloc); ok {
+							if _, isArr := al.Type().Underlying().(*types.Pointer).Elem().Underlying().(*types.Array); isArr {
+								bad = "a slice of the fixed-size local array declared at " + c.Pos(al.Pos())
+								return true
+							}
+						}
+					}
+					return false
+				},
+				Leaf: func(ssa.Value, string) {},
+				ThroughCalls: func(cl *ssa.Call) ([]ssa.Value, bool) {
+					return cl.Call.Args, true
+				},
+			}
+			w.Walk(call.Common().Args[0])
+			c.Check(bad == "", rule, fmt.Sprintf("%s: %s call %d validates the whole identifier", k, an.Short(name), perCallee[name]), call.Pos(),
+				"the argument does not come out of a fixed-size buffer",
+				"the argument comes from "+bad+": a copy into it cuts a longer identifier down to one that passes the length check, and the request is attributed to the device whose ID is its prefix")
+		}
+	}
+	return sites
 }
